@@ -52,6 +52,10 @@ ASSUMPTIONS = C05.ASSUMPTIONS[2:] + [
     'Mode).  Enumerations, constants and core types are global.  A data type of the population must be the instance visible from '
     'the home (the instance-reference types of its own classes), not only carry the right name; which class, association or '
     'function instance a statement is related to is not compared beyond that',
+    'refchain family: on the host variant "refchain" class A has the referential attribute B_A_Id that refers (R4) to B.A_Id -- an '
+    'identifying attribute of B that is itself referential (R1, to A.Id) -- modeled with the O_RATTR / O_REF / O_RTIDA / O_OIDA '
+    'instances BridgePoint keeps for every referential attribute; the declared type of a referential attribute is the type of its '
+    'base attribute (R113; here unique_id), whatever the number of references in between',
     'keyword case: every program containing a keyword the parser hands on as written (not, empty, not_empty, cardinality, and, or, '
     'true, false, any, many, one, self) is additionally translated with ALL keywords in UPPER case (one home) and, for the statement / '
     'expression / names families, Capitalised (another home; thorough: every family, plus aLtErNaTiNg); the oracle is unchanged '
@@ -116,6 +120,61 @@ def component_tasks(ctx, tasks):
     return out
 
 
+def refchain_programs():
+    '''Reads of A.B_A_Id -- a referential attribute that refers to B.A_Id, itself referential (host variant "refchain") -- through
+    a typed handle, self, selected, a loop variable and a handle assigned from another one; in assignments (the variable takes the
+    declared type), comparisons, where clauses, conditions and return values; next to reads of the first-level referential
+    attribute B.A_Id and of base attributes.'''
+    V, F, BIN, ASSIGN, SEL, SELF = H.V, H.F, H.BIN, H.ASSIGN, H.SEL, H.SELF
+    second = lambda h: F(h, 'B_A_Id')
+    P = []
+    add = lambda *stmts: P.append(list(stmts))
+    add(ASSIGN('k', second('a')))
+    add(ASSIGN('k', second('a')), ASSIGN('m', V('k')), ASSIGN('k', F('b', 'A_Id')))
+    add(ASSIGN('k', F('b', 'A_Id')), ASSIGN('k', second('a')), ASSIGN('m', F('a', 'Id')))
+    add(ASSIGN('k', F('a', 'Id')), ASSIGN('m', F('b', 'A_Id')), ASSIGN('n', F('a', 'Num')))       # the other attribute kinds on this host
+    add(ASSIGN('q', BIN('==', second('a'), F('b', 'A_Id'))))
+    add(ASSIGN('q', BIN('!=', second('a'), F('a', 'Id'))), ASSIGN('u', BIN('==', second('a2'), second('a'))))
+    add(('selfrom', 'any', 'n', 'A', BIN('==', second(SEL), F('b', 'A_Id')), True))
+    add(('selfrom', 'many', 'n', 'A', BIN('==', second(SEL), F(SEL, 'Id')), True))
+    add(('selrel', 'many', 'n', V('b'), [('A', 'R1', None)], BIN('!=', second(SEL), F('b', 'A_Id'))))
+    add(('selrel', 'one', 'n', V('a'), [('A', 'R2', H.T('next'))], BIN('==', second(SEL), second('a'))))
+    add(ASSIGN('k', second(SELF)))
+    add(('return', BIN('!=', second(SELF), second('a'))))
+    add(('selfrom', 'any', 'n', 'A', BIN('==', second(SEL), second(SELF)), True), ASSIGN('k', second('n')))
+    add(('if', BIN('==', second('a'), second('a2')), [ASSIGN('k', second('a2'))], [(BIN('!=', second('a'), F('b', 'A_Id')), [ASSIGN('k', second('a'))])],
+         [ASSIGN('k', F('b', 'A_Id'))], [False, False]))
+    add(('while', BIN('!=', second('a'), second('a')), [ASSIGN('k', second('a')), ('break',)], False))
+    add(('foreach', 'x', 'aset', [ASSIGN('k', second('x'))], False))
+    add(ASSIGN('x', V('a')), ASSIGN('k', second('x')))
+    add(('create', 'n', 'A'), ASSIGN('k', second('n')), ('return', BIN('==', V('k'), second('n'))))
+    return P
+
+
+def refchain_tasks(ctx, tasks):
+    '''The refchain family: the programs of refchain_programs() in every home, and every k-th program of the statement family
+    (homes rotate), on the host variant "refchain" -- alternately through prebuild_action and prebuild_model.'''
+    out = []
+    for n, core_stmts in enumerate(refchain_programs()):
+        for k, home in enumerate(H.HOMES):
+            stmts = H.tolist(H.home_params(core_stmts, home))
+            if H.complete(stmts, home, variant='refchain') is None:
+                continue
+            out.append(dict(family='refchain', stmts=stmts, home=home, entry='model' if (n + k + ctx.seed) % 2 else 'action',
+                            host='refchain', layouts=['lines' if (n + k) % 3 == 2 else 'default'], second_level=True))
+    pool = {}
+    for t in tasks:
+        if t['family'] == 'statements' and 'host' not in t:
+            pool.setdefault(repr(t['stmts']), []).append(t)
+    progs = sorted(pool.items())
+    want = 60 if ctx.quick else 400
+    for n, (_, ts) in enumerate(progs[(ctx.seed * 5) % 7:: max(1, len(progs) // want)]):
+        t = ts[(n + ctx.seed) % len(ts)]
+        out.append(dict(family='refchain', stmts=t['stmts'], home=t['home'], entry='action' if (n + ctx.seed) % 2 else 'model',
+                        host='refchain', layouts=['default']))
+    return out
+
+
 def history_tasks(ctx, tasks):
     '''The history family: every history of prebuildhost.histories() before every k-th program of the statement family
     (homes rotate with the programs), alternately in the one-line and in the multi-line layout.'''
@@ -134,7 +193,8 @@ def run(ctx):
     from mc import core
     tasks, bounds = H.all_tasks(ctx.tier, ctx.seed)
     tasks = with_layouts(ctx, tasks)
-    tasks = tasks + history_tasks(ctx, tasks) + component_tasks(ctx, tasks)
+    tasks = tasks + history_tasks(ctx, tasks) + component_tasks(ctx, tasks) + refchain_tasks(ctx, tasks)
+    ctx.notes['refchain_second_level'] = sum(1 for t in tasks if t.get('second_level'))
     k = (ctx.seed * 97) % max(1, len(tasks))
     tasks = tasks[k:] + tasks[:k]
     ctx.notes['bounds'] = bounds
@@ -154,6 +214,9 @@ def run(ctx):
     ctx.require(ctx.n('family:components') >= 500 and ctx.n('namesake_checks') >= 2 * ctx.n('family:components'),
                 'components family: %d programs, %d data types with a namesake in another component compared' %
                 (ctx.n('family:components'), ctx.n('namesake_checks')))
+    ctx.require(ctx.n('family:refchain') >= 100 and ctx.notes['refchain_second_level'] >= 50,
+                'refchain family: %d programs, %d of them read the second-level referential attribute'
+                % (ctx.n('family:refchain'), ctx.notes['refchain_second_level']))
     nh = len(H.histories())
     ctx.require(ctx.n('history_runs') >= 20 * nh and ctx.n('history_not_judged') == 0 or ctx.caps_hit,
                 'history family: %d runs judged, %d not judged (%d histories)' % (ctx.n('history_runs'), ctx.n('history_not_judged'), nh))
@@ -242,6 +305,10 @@ def coverage(ctx):
         components_family=dict(host_variant='components: three components (twin, own, twin) below one system package',
                                twin_types=H.TWIN_RETYPE, programs=ctx.n('family:components'),
                                data_types_with_a_namesake_compared=ctx.n('namesake_checks')),
+        refchain_family=dict(host_variant='refchain: the default host plus A.B_A_Id, referring across R4 to B.A_Id (second identifier of '
+                                          'B), which refers across R1 to A.Id; with the O_REF / O_RTIDA / O_OIDA instances of both',
+                             programs=ctx.n('family:refchain'), reading_the_second_level_attribute=ctx.notes.get('refchain_second_level'),
+                             read_through=['typed handle', 'self', 'selected', 'loop variable', 'handle assigned from a handle', 'created instance']),
         remarks_layout=dict(families_quick=REMARK_FAMILIES, programs=ctx.n('layout:remarks'),
                             characters=[hex(ord(c)) for c in H.ODD_CHARACTERS + '\r'], characters_placed=ctx.n('remark_characters')),
         keyword_case=dict(styles_quick=dict(upper='every program spelling a keyword through to the translator',
